@@ -118,13 +118,26 @@ def process_outputs(
 
     conf_outputs = list(rtconfig['skip']['outputs']) if rtconfig else []
 
+    # Emit failed rather than succeeded if configured to, or (by default) if
+    # failed is a required output (e.g. "foo:fail => bar") and succeeded not.
+    fail = TASK_OUTPUT_FAILED in conf_outputs
+    if not conf_outputs:
+        required = {
+            itask.state.outputs._message_to_trigger[message]
+            for message in itask.state.outputs.iter_required_messages()
+        }
+        fail = (
+            TASK_OUTPUT_FAILED in required
+            and TASK_OUTPUT_SUCCEEDED not in required
+        )
+
     # Send the rest of our outputs, unless they are succeeded or failed,
     # which we hold back, to prevent warnings about pre-requisites being
     # unmet being shown because a "finished" output happens to come first.
     for message in itask.state.outputs.iter_required_messages(
         disable=(
             TASK_OUTPUT_SUCCEEDED
-            if TASK_OUTPUT_FAILED in conf_outputs
+            if fail
             else TASK_OUTPUT_FAILED
         )
     ):
@@ -143,7 +156,7 @@ def process_outputs(
         if trigger in conf_outputs
     )
 
-    if TASK_OUTPUT_FAILED in conf_outputs:
+    if fail:
         result.add(TASK_OUTPUT_FAILED)
     else:
         result.add(TASK_OUTPUT_SUCCEEDED)
